@@ -148,6 +148,67 @@ func (c *Check) writerLayout(f *Func) (prefixParam int, size int, fields []wfiel
 		return 0, 0, nil, fmt.Sprintf("%d paths (expected straight-line code)", len(paths))
 	}
 	pa := paths[0]
+	// one buffer of len(prefix)+N bytes: the prefix is copied to its start and the fields are put behind it
+	if len(pa.Ret) == 1 {
+		buf := stripConv(pa.Ret[0])
+		if bb, ok := matchAny(buf, "(make []byte (+ (len $P) $N))", "(make []byte (+ $N (len $P)))"); ok && bb["$P"].Op == "" && strings.HasPrefix(bb["$P"].At, "P") {
+			if n, ok := litInt(bb["$N"]); ok {
+				P := bb["$P"]
+				copied := false
+				var fs []wfield
+				bad := ""
+				for _, ev := range pa.Events {
+					if ev.Kind != EvCall {
+						continue
+					}
+					if ev.CI.name == "copy" && len(ev.CI.args) == 2 && stripConv(ev.CI.args[0]).Eq(buf) && ev.CI.args[1].Eq(P) {
+						copied = true
+						continue
+					}
+					w := 0
+					switch ev.CI.name {
+					case "encoding/binary.bigEndian.PutUint64":
+						w = 8
+					case "encoding/binary.bigEndian.PutUint32":
+						w = 4
+					case "encoding/binary.bigEndian.PutUint16":
+						w = 2
+					default:
+						continue
+					}
+					dst := stripConv(ev.CI.args[0])
+					off := -1
+					if dst.Op == "slice" && len(dst.A) == 3 && stripConv(dst.A[0]).Eq(buf) && dst.A[2].IsAt("_") {
+						lo := stripConv(dst.A[1])
+						if lo.Op == "len" && len(lo.A) == 1 && lo.A[0].Eq(P) {
+							off = 0
+						} else if b2, ok := matchAny(lo, "(+ (len $Q) $O)", "(+ $O (len $Q))"); ok && b2["$Q"].Eq(P) {
+							if o, ok := litInt(b2["$O"]); ok {
+								off = o
+							}
+						}
+					}
+					if off < 0 {
+						bad = "destination " + dst.String() + " not understood"
+						break
+					}
+					fs = append(fs, wfield{off, w, ev.CI.args[1]})
+				}
+				if bad == "" && copied && len(fs) > 0 {
+					var pi int
+					fmt.Sscanf(P.At, "P%d", &pi)
+					sort.Slice(fs, func(i, j int) bool { return fs[i].off < fs[j].off })
+					return pi, n, fs, ""
+				}
+				if bad == "" && !copied {
+					bad = "the start of the buffer is not filled from the prefix parameter"
+				}
+				if bad != "" {
+					return 0, 0, nil, bad
+				}
+			}
+		}
+	}
 	for _, ev := range pa.Events {
 		if ev.Kind != EvCall {
 			continue
@@ -679,4 +740,50 @@ func (c *Check) idInputsPresent(rule string) {
 		}
 	}
 	c.req(n >= 2, rule, "id-inputs", token.NoPos, fmt.Sprintf("%d asserted inputs of the context-id generator examined", n))
+}
+
+// createRejectsBeforeStore (C18.12): the function that stores a new request context is a keeper API that other modules call
+// outside a message (block hooks, genesis, upgrades), where a returned error does not roll the store back. Every rejecting
+// exit of that function precedes its first store write: a check of the generated id (its length, the inputs it was built
+// from) that runs after the context was stored leaves a record under an id the function itself has just refused.
+func (c *Check) createRejectsBeforeStore(rule string) {
+	n := 0
+	for f, pps := range c.persistUnits("0x08", "RequestContext") {
+		isCtor := false
+		for _, pp := range pps {
+			for _, sv := range pp.Stored {
+				if sv.Op == "lit" {
+					isCtor = true
+				}
+			}
+		}
+		if !isCtor {
+			continue
+		}
+		n++
+		var badPos token.Pos
+		bad := ""
+		for _, pa := range c.P.PathsOf(f) {
+			if pa.Exit != ExitRevert {
+				continue
+			}
+			for _, ev := range pa.Events {
+				if ev.Kind != EvCall {
+					continue
+				}
+				for _, e := range c.P.effectsOfEvent(f, ev) {
+					if e.Kind == "store" && (e.Op == "Set" || e.Op == "Delete") && bad == "" {
+						bad, badPos = effDesc(e), pa.RetPos
+					}
+				}
+			}
+		}
+		pos := f.Body.Pos()
+		if bad != "" {
+			pos = badPos
+		}
+		c.req(bad == "", rule, unitConstruct(f, "rejects-before-store"), pos,
+			"no rejecting exit of the context constructor follows a store write"+condStr(bad != "", ": the exit at "+c.pos(badPos)+" rejects after "+bad))
+	}
+	c.req(n >= 1, rule, "context-constructor", token.NoPos, fmt.Sprintf("%d function(s) store a newly built request context", n))
 }
